@@ -20,6 +20,12 @@ CHECKS = {
  'C06': dict(technique=TECH,
    text='Bounded-exhaustive TLC model checking of the transcribed find_or_add/ite/collect_garbage/swap algorithms (RefExact, CollectC, CacheSound, HeldSame, StepContract) over 2-3 variables; paths of that state graph and seeded random long histories are executed on the real dd.bdd.BDD and every recorded step (full node table, counts, the harness ledger of increfs) is judged by TLC: exact counts, exactly the reachable nodes after a collection, held references keep their meaning, witness calls after cache-clearing actions.',
    note=TRUST + 'The ledger of external references is the harness\'s own. Bounded: 2-3 variables depth<=7 in the model, 2-5 variables <=300 steps recorded.', design='7 (C06)'),
+ 'C07': dict(technique=TECH,
+   text='MC_Reorder3: TLC explores swap, reorder-to-every-permutation and sifting with EVERY visiting order over 3 variables on the transcribed swap/_shift/_reorder_var/_sort_to_order (SwapC, ReorderToC, SiftC, HeldSame, Canonical, RefExact); its state graph, managers holding all 256 functions of 3 variables or 40 functions of 4-5 variables, and seeded reorder-heavy histories (0-5 variables; swap by name/level, reorder, reorder_to_pairs, sift, repetitions) run on the real code with every step judged by TLC: same number, same denotation by name, same external count, requested order/adjacency, sifting never grows.',
+   note=TRUST + 'External counts are the harness ledger. Real sifting visits variables in the set order of the run\'s PYTHONHASHSEED; the model covers all visiting orders.', design='7 (C07)'),
+ 'C14': dict(technique=TECH,
+   text='MC_VarDecl: add_var/undeclare_vars/var/apply/drop/gc/swap interleavings over 3 names under TLC (AddVarC, UndeclareC, HeldSame, Canonical); graph replays and seeded histories over 6 names on the real code (idempotent / conflicting / used-level declarations, undeclare of no / unused / used / unknown names) with the four order views read after every step; TLC checks the views against the recorded order, exact removed sets, refusals exactly when required, held functions unchanged by name.',
+   note=TRUST + 'Levels passed to add_var are never gaps (precondition).', design='7 (C14)'),
  'C10': dict(technique=TECH,
    text='TLC checks support/is_essential/count/pick/pick_iter of the real code for all functions of 3 variables (all orders, every care set incl. unused declared variables, every n) against BoolFun (Support, CountF, cube cover/disjointness); MC_Sat checks the transcribed _sat_len/count/support recursions against BoolFun on all 256 functions x 6 orders.',
    note=TRUST + 'Exhaustive to 3 variables, 4 sampled (thorough: all orders).', design='7 (C10)'),
